@@ -161,8 +161,25 @@ def check_hashseed(ctx):
     ctx.count('hashseed_runs', len(seeds))
 
 
+def check_reserved_names(ctx):
+    """a property stored under the name BEGIN or END is written like any other and breaks the nesting"""
+    from icalendar import Calendar, Event
+    for nm in ('end', 'begin'):
+        cal = Calendar()
+        e = Event()
+        e.add(nm, 'VEVENT')
+        e.add('uid', '1')
+        cal.add_component(e)
+        b = cal.to_ical()
+        ctx.evaluated(('reserved', nm))
+        if not balanced(b):
+            ctx.violation('unbalanced', {'bytes': b.decode('utf-8')}, f'a property named {nm.upper()} unbalances the output',
+                          'property-named-begin-end')
+
+
 def oracle(ctx):
     import icalendar
+    check_reserved_names(ctx)
     for name, data in calgen.fixtures():
         try:
             comps = icalendar.Calendar.from_ical(data, multiple=True)
